@@ -101,6 +101,19 @@ class GhostFile(object):
         self.fs.files.setdefault(self.name, []).append(s)
         Ctx.current.effect("write", self.name, s)
 
+    def writelines(self, lines):
+        from pyvc.core import Sym
+        if isinstance(lines, Sym):
+            raise Undecided("writelines of an abstract sequence")
+        for ln in lines:
+            self.write(ln)
+
+    def flush(self):
+        pass
+
+    def readlines(self):
+        return list(self.fs.files.get(self.name, []))
+
     def __iter__(self):
         return iter(list(self.fs.files.get(self.name, [])))
 
@@ -126,8 +139,21 @@ class GhostFS(object):
             def close(self):
                 pass
 
+            def flush(self):
+                pass
+
+            def __enter__(self):
+                return self
+
+            def __exit__(self, *a):
+                return False            # NamedTemporaryFile(delete=False) as a context manager: closes, keeps the file
+
             def write(self, s):
                 fs.files.setdefault(self.name, []).append(s)
+
+            def writelines(self, lines):
+                for ln in lines:
+                    self.write(ln)
 
         def named_tmp(interp, args, kwargs):
             fs.n += 1
@@ -206,11 +232,33 @@ class FakeIterator(object):
 
 
 def blank_creator(cls, conn, id_spec="ID", merge_strategy="error", counters=None, **fields):
+    """an importer object in a chosen state.  The object is first built by the REAL __init__ (run natively on the ghost
+    connection, DataIterator answered by the fake iterator), so that instance attributes a later version of __init__
+    adds exist; the fields the units reason about are then set to the chosen (possibly symbolic) values."""
     c = object.__new__(cls)
+    import gffutils.iterators as _IT
+    fake = FakeIterator(constants.dialect)
+    real_di, lvl = _IT.DataIterator, C.logger.level
+    saved = {k: getattr(conn, k) for k in ("row_factory", "text_factory") if hasattr(conn, k)}
+    try:
+        _IT.DataIterator = lambda *a, **k: fake
+        kw = dict(transcript_key="transcript_id", gene_key="gene_id", subfeature="exon") if issubclass(cls, C._GTFDBCreator) else {}
+        try:
+            cls.__init__(c, data=fake, dbfn=conn, id_spec=id_spec, merge_strategy="error", verbose=False, text_factory=None, **kw)
+        except Exception:
+            pass            # a constructor that cannot run on the ghost connection: the fields below are all the state there is
+    finally:
+        _IT.DataIterator = real_di
+        C.logger.setLevel(lvl)
+        for k, v in saved.items():
+            try:
+                setattr(conn, k, v)
+            except Exception:
+                pass
     d = dict(conn=conn, id_spec=id_spec, merge_strategy=merge_strategy, verbose=False, force_merge_fields=[],
              default_encoding="utf-8", _keep_tempfiles=False, directives=[], disable_infer_genes=False,
              disable_infer_transcripts=False, dbfn=":ghost:", pragmas=constants.default_pragmas,
-             _autoincrements=counters if counters is not None else SymMap(), iterator=FakeIterator(constants.dialect),
+             _autoincrements=counters if counters is not None else SymMap(), iterator=fake,
              transcript_key="transcript_id", gene_key="gene_id", subfeature="exon")
     d.update(fields)
     for k, v in d.items():
@@ -444,7 +492,8 @@ def unit_gff_step(U):
             raw = list(p.ctx.effects)
             marks = [i for i, e in enumerate(raw) if e[0] == "mark"]
             effs = classify(raw[marks[-1]:] if marks else raw)        # the statements issued for f (the last line)
-            rel = [e for e in effs if e.table == "relations" and e.kind in ("insert", "delete", "update")]
+            rel = [e for e in effs if e.table == "relations" and e.kind in ("insert", "delete", "update")
+                   and not (e.how == "executemany" and isinstance(e.args, (list, tuple)) and len(e.args) == 0)]      # a batch of no rows is no statement
             has_par = shape == "parents:any"
             # on the path where the Parent list is non-empty there is exactly one forall block
             nonempty = has_par and any(e.forall is not None for e in rel)
@@ -540,7 +589,7 @@ def unit_gff_finish(U, prefix="C02", only_level1=True):
             # driver: all ids
             si = Q.select_info(sel[0].stmt.node)
             U.prove(base + ".driver#p%d" % p.index, "the driving query scans every feature id (SELECT id FROM features, no WHERE)", [],
-                    z3.BoolVal([Q.expr_text(c) for c, _ in si.columns] == ["id"] and si.where is None and not si.joins and si.source[1] == "features"), {}, replay=replay)
+                    z3.BoolVal(Q.select_cols(si) == ["id"] and si.where is None and not si.joins and si.source[1] == "features"), {}, replay=replay)
             # nested query: child c is selected <==> exists b: Rel(a, b, .) and Rel(b, c, .)
             Rel = _rel_fn()
             same_text = sel[1].stmt.text == sel[2].stmt.text if hasattr(sel[1].stmt, "text") else Q.expr_text(sel[1].stmt.node) == Q.expr_text(sel[2].stmt.node)
@@ -566,7 +615,7 @@ def unit_gff_finish(U, prefix="C02", only_level1=True):
             except (Q.SQLArgs, Q.SQLSyntax) as ex:
                 U.prove(base + ".nested.lockstep#p%d" % p.index, "valid SQL, arguments in lock-step (%s)" % ex, [], z3.BoolVal(False), {}, replay=replay)
                 continue
-            proj = [Q.expr_text(c) for c, _ in si2.columns]
+            proj = Q.select_cols(si2)
             b, l1, l2 = z3.String("b"), z3.Int("l1"), z3.Int("l2")
             # selected(c) := exists r1 in Rel: r1.child == c and where(r1)
             selected = z3.Exists([r1["parent"].term, r1["child"].term, r1["level"].term],
@@ -585,7 +634,7 @@ def unit_gff_finish(U, prefix="C02", only_level1=True):
             rows = e.args if isinstance(e.args, list) else list(e.args)
             expected = [(A[i][0], c[0]) for i in (0, 1) for c in Cs[i]]
             goal = z3.BoolVal(False)
-            if e.how == "executemany" and all(isinstance(r, dict) for r in rows):
+            if e.how == "executemany" and all(isinstance(r, (dict, tuple, list)) for r in rows):      # named or positional rows
                 try:
                     got = []
                     meta_ok = True
